@@ -5577,9 +5577,23 @@ class DfaCompileCtx:
                         continue
                     symbols = transition.on_values
 
-                def makes_room(step):
-                    return any(isinstance(sub, DeleteBuf) and all(sub.into_storage is append.into_storage for append in overflowing)
-                               for action in step.actions for sub in action.all_subactions())
+                # How many bytes the buffer that did not fit is known to have room for is followed along the way: none to begin with; a delete or a
+                # constant assignment makes some (only where it is performed whatever the outputs hold: not under an if), every character appended
+                # behind it takes one again. Back here with none, the byte cannot fit either.
+                storage = overflowing[0].into_storage if overflowing and all(append.into_storage is overflowing[0].into_storage for append in overflowing) else None
+                capacity = storage.effective_string_size() if storage is not None and storage.holds_a(OutputStorageType.STR) else 1 << 30
+
+                def room_behind(step, room):
+                    for action in step.actions:
+                        if storage is None:
+                            break
+                        if isinstance(action, DeleteBuf) and action.into_storage is storage:
+                            room = capacity
+                        elif isinstance(action, SetToStr) and action.into_storage is storage:
+                            room = capacity - len(action.value_expr)
+                        else:
+                            room -= sum(1 for sub in action.all_subactions() if isinstance(sub, AppendCharTo) and sub.into_storage is storage)
+                    return max(room, 0)
 
                 def stays_in_place(t):
                     return t.is_fallthrough or (symbols == [DFTransition.End] and DFTransition.End in t.on_values and not t.error_handling)
@@ -5595,19 +5609,27 @@ class DfaCompileCtx:
                             return targets
                     return targets + [transition.target]
 
-                def aux(x, symbol):
+                def visit(target, symbol, room):
+                    if (target, room) not in visited:
+                        visited.add((target, room))
+                        aux(target, symbol, room)
+
+                def aux(x, symbol, room):
                     if isinstance(x, DFConditionPoint):
                         steps = x.transitions
                     else:
                         real_target = x[symbol]
                         steps = [real_target] if real_target and stays_in_place(real_target) else []
+                        if real_target and not steps and overflowing and room == 0:
+                            # another appended match into the buffer that is still full: the byte does not fit there either, and is handed on
+                            # to that append's handler
+                            for append in (sub for action in real_target.actions for sub in action.all_subactions() if isinstance(sub, AppendTo) and sub.into_storage is storage):
+                                for handler in append.get_target_override_targets():
+                                    visit(handler, symbol, room)
                     for step in steps:
-                        if overflowing and makes_room(step):
-                            continue
+                        behind = room_behind(step, room) if overflowing else 0
                         for target in leads_to(step):
-                            if target not in visited:
-                                visited.add(target)
-                                aux(target, symbol)
+                            visit(target, symbol, behind)
 
                 # The byte that is not consumed is one byte: each symbol of the transition is followed on its own (the states on the way may
                 # well treat the symbols differently -- asked about all of them at once they have no single answer, and the walk would end there)
@@ -5615,13 +5637,11 @@ class DfaCompileCtx:
                     visited = set()
                     if overflowing:
                         for handler in [target for append in overflowing for target in append.get_target_override_targets()]:
-                            if handler not in visited:
-                                visited.add(handler)
-                                aux(handler, symbol)
+                            visit(handler, symbol, 0)
                     else:
-                        aux(state, symbol)
+                        aux(state, symbol, 0)
 
-                    if state in visited:
+                    if (state, 0) in visited:
                         raise IllegalDFAStateError("Infinite loop due to self-referential fallthrough", transition)
         
 
